@@ -16,6 +16,7 @@ TASK = """# Task
 You are helping to evaluate a verification effort for the Rust crate `raindb` (a LevelDB-style LSM-tree key-value store).
 Your scratch git worktree of the repository is `{wt}` - work only inside it. Your output directory is `{out}`.
 Do not read or modify anything under /repo or /verif, and do not look at other directories under /tmp/seedround.
+Never use `git stash` (the stash is shared between all worktrees of the repository; use `git diff > file` and `git checkout -- .` instead).
 
 ## The property
 
